@@ -10,7 +10,7 @@ from .. import core, findlib
 from .. import gen_replace_c05 as G
 from . import c05 as C5
 
-RULE = ("(a) self-replacement P→P on planted structures (all cell kinds, poses, boundary placements, all findlib patterns "
+RULE = ("[ordinary streams] (a) self-replacement P→P on planted structures (all cell kinds, poses, boundary placements, all findlib patterns "
         "incl. symmetric ones, 1–3 copies + decoys) that carry random bonds/angles/dihedrals/impropers with coefficient "
         "tables, unique charges and groups; patterns without terms; (a') RING stream: every matched copy of a ≥3-atom pattern "
         "carries all three angles (i,j,k),(j,k,i),(k,i,j) over its first three atoms and (≥4 atoms) the four torsions "
@@ -34,6 +34,11 @@ RULE = ("(a) self-replacement P→P on planted structures (all cell kinds, poses
         "orientation by 1e-3 rad … 1.3·atol rad (angle × lever arm > tolerance while angle[rad] < atol[Å]). "
         "AXFLIP: in (b) site patterns whose replacement B has its longest atom pair exactly along x, y or z (A's is generic), "
         "sites unperturbed and turned by exactly 180° about a coordinate axis. "
+        "[TAGGED stream, known finding self-replacement-adds-the-patterns-own-terms] self-replacement with patterns that CARRY "
+        "bonds/angles/dihedrals on structures without (or with other) terms, plus the repository pair uio66-triclinic.lmpdat + "
+        "uio66-linker.cml on every run: everything except the term tuples must be unchanged, no tuple may be lost, every gained "
+        "tuple must be the image of one of the pattern's own terms on the atoms of a match — then (and only then) the case is "
+        "attributed to the finding. "
         "MIRROR: in (b) a weakly chiral pattern (mirror misfit 0.5 Å, atol 0.1) next to its mirror image placed at coordinates "
         "above 0.7 × cell length.")
 
@@ -84,6 +89,14 @@ def oracle_self(sj, out):
 
 
 def self_case(rng, tier):
+    if rng.random() < 0.08:
+        # occurrences that SHARE an atom: a centre with 3–4 partners, two-atom pattern, all or part of them "replaced"
+        star = G.make_star_case(rng, tier)
+        case = {"op": "c08-self", "s": G.add_terms(rng, star["s"], density=1.0), "p": star["p"], "atol": star["atol"],
+                "seed": star["seed"], "info": star["info"]}
+        if rng.random() < 0.5:
+            case["fraction"] = star["fraction"]
+        return case
     base = G.make_case(rng, tier, hints=(None, None, None), rp_kind="keep_all+far", replace_all=False)   # structure + search pattern; Rp unused
     sj = G.add_terms(rng, base["s"], density=rng.choice([0.5, 1.0, 1.5]))
     case = {"op": "c08-self", "s": sj, "p": base["p"], "atol": base["atol"], "seed": base["seed"], "info": base["info"]}
@@ -208,6 +221,96 @@ def oracle_self_all(case, out):
     return None
 
 
+# ------------------------------------------------------------------ KNOWN FINDING: the pattern's own terms are added
+
+FINDING_TERMS = "self-replacement-adds-the-patterns-own-terms"
+
+
+def term_difference(before, after, pattern, matches):
+    """(lost, added, foreign): tuples of `before` missing in `after`; tuples gained; gained tuples that are NOT the image of a
+    term of the pattern on the atoms of one of the matches (index tuples in search-pattern order). All per kind."""
+    ta, tb, tp = term_sets(before), term_sets(after), pattern["terms"]
+    lost, added, foreign = {}, {}, {}
+    for k in ta:
+        images = {norm_tuple([m[a] for a in t["a"]]) for m in matches for t in tp[k] if all(a < len(m) for a in t["a"])}
+        lo, ad = ta[k] - tb[k], tb[k] - ta[k]
+        if lo:
+            lost[k] = sorted(lo)
+        if ad:
+            added[k] = sorted(ad)
+        if ad - images:
+            foreign[k] = sorted(ad - images)
+    return lost, added, foreign
+
+
+def oracle_self_terms(case, out):
+    """self-replacement with a pattern that CARRIES terms. Returns None | ("finding", text, observed) | ("violation", text)"""
+    sj = case["s"]
+    stripped = json.loads(json.dumps(out))
+    if "ok" in out:
+        # everything but the term tuples is judged by the ordinary oracle
+        stripped["ok"]["terms"] = json.loads(json.dumps(sj["terms"]))
+    bad = oracle_self(sj, stripped)
+    if bad:
+        return ("violation", bad)
+    lost, added, foreign = term_difference(sj, out["ok"], case["p"], [m["idx"] for m in (out.get("used") or [])])
+    if lost:
+        return ("violation", "term atom tuples LOST in a self-replacement: %s" % lost)
+    if foreign:
+        return ("violation", "term atom tuples gained that are not images of the pattern's own terms on matched atoms: %s" % foreign)
+    if added:
+        n = sum(len(v) for v in added.values())
+        return ("finding", "self-replacement adds %d term tuple(s) — the images of the pattern's own %s on the matched atoms — that the "
+                "structure did not have; positions, elements, charges, groups and all existing tuples unchanged"
+                % (n, "/".join(sorted(added))), {"added": {k: v[:6] for k, v in added.items()}, "lost": {}, "matches": len(out.get("used") or [])})
+    return None
+
+
+def pattern_with_terms(rng, pj):
+    """the pattern carrying random bonds / angles / dihedrals among its own atoms (types 0.., sometimes coefficient tables)"""
+    out = json.loads(json.dumps(pj))
+    n = len(out["atoms"])
+    for kind, ar in (("bond", 2), ("angle", 3), ("dihedral", 4)):
+        if n < ar or rng.random() < 0.3:
+            continue
+        seen = set()
+        for _ in range(rng.randint(1, 3)):
+            t = rng.sample(range(n), ar)
+            if norm_tuple(t) in seen:
+                continue
+            seen.add(norm_tuple(t))
+            out["terms"][kind].append({"a": t, "ty": 0, "x": []})
+    if not any(out["terms"][k] for k in out["terms"]) and n >= 2:
+        out["terms"]["bond"].append({"a": [0, 1], "ty": 0, "x": []})
+    return out
+
+
+def self_terms_case(rng, tier):
+    names = [p for p in findlib.PATTERNS if len(findlib.PATTERNS[p][0]) >= 2]
+    base = G.make_case(rng, tier, hints=(None, None, None), pname=rng.choice(names), rp_kind="keep_all+far", replace_all=False,
+                       int_rp=False)
+    sj = base["s"] if rng.random() < 0.6 else G.add_terms(rng, base["s"], density=0.5)     # mostly structures WITHOUT terms
+    if rng.random() < 0.5:
+        # no coefficient tables on the structure side (a CIF-like structure): avoids the separate table-alignment finding
+        sj = json.loads(json.dumps(sj))
+        for k in ("bond", "angle", "dihedral", "improper"):
+            sj["types"][k] = []
+    return {"op": "c08-self-terms", "s": sj, "p": pattern_with_terms(rng, base["p"]), "atol": base["atol"], "seed": base["seed"],
+            "info": base["info"]}
+
+
+def canonical_self_terms_case():
+    """identification snippet: two C–O pairs without bonds, the pattern C–O carries its bond"""
+    cell = [[9.0, 0, 0], [-3.0, 10.0, 0], [2.0, -4.0, 11.0]]
+    sj = findlib.struct_json(["C", "O", "C", "O", "H"], [[1.0, 1, 1], [2.25, 1, 1], [4.0, 5, 6], [4.0, 6.25, 6], [6.0, 2, 8]], cell,
+                             charges=[1 / 16, 2 / 16, 3 / 16, 4 / 16, 5 / 16], groups=[1, 1, 2, 2, 3])
+    pj = G.pattern_atoms_json(["C", "O"], [[0.0, 0, 0], [1.25, 0, 0]])
+    pj["terms"]["bond"] = [{"a": [0, 1], "ty": 0, "x": []}]
+    return {"op": "c08-self-terms", "s": sj, "p": pj, "atol": 0.05, "seed": 0,
+            "info": {"cell": "tri-", "pattern": "pair", "boundary": "None", "rp": "self", "copies": 2, "decoys": [], "atol": 0.05,
+                     "distorted": "none"}}
+
+
 # ------------------------------------------------------------------ (b) A → B → A
 
 def multiset(j):
@@ -264,6 +367,13 @@ def site_case(rng, tier):
     base = G.make_case(rng, tier, hints=(None, None, None), pname=pname, rp_kind=rp_kind, replace_all=False, fmax=0.35, **kw)
     case = {"op": "c08-site", "s": base["s"], "a": base["p"], "b": base["r"], "atol": base["atol"], "seed": base["seed"],
             "single": single, "info": base["info"], "variant": variant}
+    if single and rng.random() < 0.3:
+        # B written at other coordinates than A: A→B moves the site by the difference, B→A moves it back
+        off = [G.dyad(rng, -2, 2) for _ in range(3)]
+        case["b"] = json.loads(json.dumps(case["b"]))
+        for a in case["b"]["atoms"]:
+            a["pos"] = [core.q(float(Fraction(v)) + off[i]) for i, v in enumerate(a["pos"])]
+        case["variant"] = "b-elsewhere"
     if variant == "fraction" or (single and rng.random() < 0.3):
         case["fraction"] = rng.choice([0.5, 0.5, 0.34, 0.75, 0.6])   # A→B on a random part of the sites, B→A on all B sites
     return case
@@ -377,11 +487,24 @@ def mof_inputs():
 
 
 def oracle_mof(name, s, p, atol):
-    from mofun import replace_pattern_in_structure
+    """returns (None | text | ("finding", text, observed), number of matches)"""
+    import mofun.mofun as mm
     before = core.canon_atoms(s)
+    pj = core.canon_atoms(p)
+    rec = {}
+    real_find = mm.find_pattern_in_structure
+
+    def find_wrap(*a, **k):
+        o = real_find(*a, **k)
+        rec["idx"] = [[int(i) for i in t] for t in o[0]]
+        return o
     random.seed(0)
     np.random.seed(0)
-    res = core.result_of(lambda: replace_pattern_in_structure(s, p, p, atol=atol, return_num_matches=True))
+    mm.find_pattern_in_structure = find_wrap
+    try:
+        res = core.result_of(lambda: mm.replace_pattern_in_structure(s, p, p, atol=atol, return_num_matches=True))
+    finally:
+        mm.find_pattern_in_structure = real_find
     if "ok" not in res:
         return "%s: self-replacement raised %s" % (name, res["err"]), 0
     r, n = res["ok"]
@@ -395,9 +518,15 @@ def oracle_mof(name, s, p, atol):
             return "%s: atom %d changed element %s -> %s" % (name, i, elem_of(before, i), elem_of(after, i)), n
         if not core.close(a["q"], b["q"], 1e-12) or a["g"] != b["g"]:
             return "%s: atom %d changed charge/group" % (name, i), n
-    pterms = sum(len(core.canon_atoms(p)["terms"][k]) for k in ("bond", "angle", "dihedral", "improper"))
-    if pterms == 0 and term_sets(before) != term_sets(after):
-        return "%s: term tuples changed although the pattern carries no terms" % name, n
+    lost, added, foreign = term_difference(before, after, pj, rec.get("idx", []))
+    if lost:
+        return "%s: term atom tuples LOST in a self-replacement: %s" % (name, {k: v[:4] for k, v in lost.items()}), n
+    if foreign:
+        return "%s: term tuples gained that are not images of the pattern's own terms: %s" % (name, {k: v[:4] for k, v in foreign.items()}), n
+    if added:
+        cnt = {k: len(v) for k, v in added.items()}
+        return ("finding", "%s: self-replacement adds the images of the pattern's own terms on the %d matched sites (%s new tuples); "
+                "positions, elements, charges, groups and all existing tuples unchanged" % (name, n, cnt), {"added_counts": cnt, "lost": {}}), n
     return None, n
 
 
@@ -425,6 +554,9 @@ def do_self(ctx, case, ops):
     ctx.case(case, nontrivial=bool(used) and touched)
     ctx.count("self")
     ctx.count("self:cell:" + case["info"]["cell"])
+    ctx.count("self:star:%s" % bool(case["info"].get("star")))
+    ctx.count("unwrapped:%s" % bool(case["info"].get("unwrapped")))
+    ctx.count("cell-spelling:%s" % (case["info"].get("cellvar") or "standard"))
     ctx.count("atol:%g" % case["atol"])
     ctx.count("distorted:" + case["info"].get("distorted", "none"))
     ctx.count("self:pattern:" + case["info"]["pattern"])
@@ -487,15 +619,48 @@ def do_gone(ctx, case, ops):
                  tags=["c08", "gone"])
 
 
-def do_mofs(ctx):
-    for name, s, p, atol in mof_inputs():
+def mof_pair_with_terms():
+    from mofun import Atoms
+    root = core.REPO
+    with core.quiet():
+        yield ("uio66-triclinic.lmpdat + uio66-linker.cml",
+               Atoms.load(os.path.join(root, "tests/uio66/uio66-triclinic.lmpdat"), atom_format="full"),
+               Atoms.load(os.path.join(root, "tests/uio66/uio66-linker.cml")), 0.2)
+
+
+def do_mofs(ctx, only_with_terms=False):
+    for name, s, p, atol in (mof_pair_with_terms() if only_with_terms else mof_inputs()):
         bad, n = oracle_mof(name, s, p, atol)
         inp = {"op": "c08-mof", "name": name, "atol": atol}
         ctx.case(inp, nontrivial=n > 0)
         ctx.count("mof")
+        if isinstance(bad, tuple):
+            ctx.notes.append("MOF self-replacement %s: %d matches, KNOWN FINDING: %s" % (name, n, bad[1]))
+            ctx.fail(bad[1], inp, observed=bad[2], required="set of bonded/angled/torsion atom tuples unchanged",
+                     tags=["c08", "mof", FINDING_TERMS])
+            continue
         ctx.notes.append("MOF self-replacement %s: %d matches, %s" % (name, n, "unchanged" if bad is None else bad))
         if bad:
             ctx.fail(bad, inp, observed=None, required="self-replacement leaves positions/elements unchanged", tags=["c08", "mof"])
+
+
+def do_self_terms(ctx, case, ops):
+    out = run_self(case)
+    r = oracle_self_terms(case, out)
+    used = out.get("used") or []
+    ctx.case(case, nontrivial=bool(used))
+    ctx.count("self-terms")
+    if r is None:
+        ctx.count("self-terms:nothing-added")
+    elif r[0] == "finding":
+        ctx.count("self-terms:pattern-terms-added")
+        ctx.fail(r[1], case, observed=r[2], required="set of bonded/angled/torsion atom tuples unchanged",
+                 tags=["c08", "self", FINDING_TERMS])
+    else:
+        ctx.fail(r[1], case, observed={"err": out.get("err"), "n": out.get("n")}, required="self-replacement is a no-op",
+                 tags=["c08", "self"])
+    if ops is not None and out.get("used") is not None:
+        ops.append((case, findlib.replace_op(case["s"], case["p"], case["p"], out["used"]), out))
 
 
 def run(ctx, oracle_only=False):
@@ -512,8 +677,11 @@ def run(ctx, oracle_only=False):
         do_site(ctx, site_case(rng, ctx.tier), ops)
     for _ in range(ctx.n(60, 1000)):
         do_gone(ctx, gone_case(rng, ctx.tier), None)
-    if ctx.tier == "thorough":
-        do_mofs(ctx)
+    # tagged stream (known finding): patterns that carry terms the structure lacks
+    do_self_terms(ctx, canonical_self_terms_case(), ops)
+    for _ in range(ctx.n(30, 400)):
+        do_self_terms(ctx, self_terms_case(rng, ctx.tier), ops)
+    do_mofs(ctx, only_with_terms=(ctx.tier != "thorough"))
     if oracle_only or not ops:
         return
     models = []
@@ -556,6 +724,8 @@ def replay(ctx, rec):
     op = case.get("op")
     if op == "c08-self":
         return oracle_self(case["s"], run_self(case)) is None
+    if op == "c08-self-terms":
+        return oracle_self_terms(case, run_self(case)) is None
     if op == "c08-self-all":
         return oracle_self_all(case, run_self(case)) is None
     if op == "c08-site":
